@@ -61,14 +61,14 @@ class TD5(TypedDict):
 
 def objects():
     return [0, 1, True, 1.5, 1j, "a", "", b"a", None, (1, "a"), (1, 2), (), [1, 2], ["a"], [], {"a": 1}, {1: "a"}, {}, {1}, frozenset({1}),
-            Color.RED, A(), B(), int, A, B, str, Point(1, 2), Celsius(36.6), {"a": 1, "b": "x"}, {"a": 1, "b": 5}, {"a": "x"}, {"a": "x", "k": 1}]
+            Color.RED, A(), B(), int, A, B, str, (1, "s", 1.5), (1, 2.5), (1, "s", "t", 0.5), Point(1, 2), Celsius(36.6), {"a": 1, "b": "x"}, {"a": 1, "b": 5}, {"a": "x"}, {"a": "x", "k": 1}]
 
 
 def types():
     return [int, bool, float, complex, str, bytes, object, type(None), Literal[1], Literal["a"], Literal[True], Optional[int], Union[int, str],
             List[int], List[str], Set[int], FrozenSet[int], Dict[str, int], Tuple[int, str], Tuple[int, ...], Tuple[()], Sequence[int], Mapping[str, int],
             Iterable[int], Type[A], Type[int], A, B, Color, Literal[Color.RED], Annotated[int, "x"], Optional[List[int]], List[Optional[int]],
-            Dict[str, List[int]], Tuple[int, Tuple[str, int]], Sequence[Union[int, str]], Tuple[int, int], TD1, TD2, TD3, TD4, TD5, Optional[complex]]
+            Dict[str, List[int]], Tuple[int, Tuple[str, int]], Sequence[Union[int, str]], Tuple[int, int], TD1, TD2, TD3, TD4, TD5, Optional[complex], Tuple[int, typing_extensions.Unpack[Tuple[str, ...]], float]]
 
 
 import typing_extensions
@@ -113,6 +113,16 @@ def member(o, T):
             return len(o) == 0
         if len(args) == 2 and args[1] is Ellipsis:
             return all(member(e, args[0]) for e in o)
+        unpacked = [i for i, a in enumerate(args) if typing.get_origin(a) is typing_extensions.Unpack]
+        if unpacked:
+            i = unpacked[0]
+            pre, post = args[:i], args[i + 1:]
+            inner = typing.get_args(typing.get_args(args[i])[0])[0]
+            if len(o) < len(pre) + len(post):
+                return False
+            mid = o[len(pre): len(o) - len(post)]
+            return (all(member(e, a) for e, a in zip(o, pre)) and all(member(e, inner) for e in mid)
+                    and all(member(e, a) for e, a in zip(o[len(o) - len(post):], post)))
         return len(o) == len(args) and all(member(e, a) for e, a in zip(o, args))
     if origin in (collections.abc.Sequence, collections.abc.Iterable):
         if isinstance(o, (str, bytes)):
@@ -155,7 +165,7 @@ def acc_type_arg(elem_cls, T):
         return False
 
 
-def search_literals():
+def search_literals(skip_known=True):
     from pyanalyze.runtime import is_assignable
     for T in types():
         for o in objects():
@@ -164,6 +174,8 @@ def search_literals():
             except NotImplementedError:
                 continue
             got = is_assignable(o, T)
+            if got != want and skip_known and want and isinstance(o, tuple) and any(typing.get_origin(a) is typing_extensions.Unpack for a in typing.get_args(T)):
+                continue  # known finding D25
             if got != want:
                 return f"is_assignable({o!r}, {T}) = {got}, structural membership says {want}"
     return None
@@ -246,6 +258,15 @@ def w_d24(rec):
     return (ok and member({}, Dict[str, int]) and not member({}, TD1)), f"TypedDict TD1{{a: int}} accepts dict[str, int]: {ok}; {{}} is a dict[str, int] but lacks the required key 'a'"
 
 
+def w_d25(rec):
+    from pyanalyze.runtime import is_assignable
+    T = Tuple[int, typing_extensions.Unpack[Tuple[str, ...]], float]
+    o = (1, "s", 1.5)
+    got = is_assignable(o, T)
+    return (member(o, T) and not got), f"is_assignable({o!r}, tuple[int, *tuple[str, ...], float]) = {got}: SequenceValue.can_assign compares members position by position and rejects every concrete tuple for a type with an unpacked member"
+
+
+REPLAYERS["C03.D25"] = w_d25
 REPLAYERS["C04.D23"] = w_d23
 REPLAYERS["C04.D24"] = w_d24
 REPLAYERS["C03.bounded"] = lambda rec: (lambda m: (bool(m), m or "is_assignable(o, T) == member(o, T) on the object x type universe"))(search_literals())
